@@ -33,6 +33,13 @@
 // its own encryption with feph; rt: fresh round trip through the keyset
 // factory; mu: Decrypt of every mutant.  <res> is ok:<hex> or err.
 // "nokey" / "noprim" when the key / the primitive cannot be created.
+//
+// RFC 9180 test vectors (corpus):
+//
+//	C06|V|<kem>.<kdf>.<aead>|<skEm>|<pkRm>|<skRm>|<info>|<enc>|<shared_secret>|<key>|<base_nonce>
+//
+// observation pk=<public key Tink derives from skRm>|enc|ss|ss2|key|bn with the
+// constants of the RFC; the model computes all of them from (skEm, pkRm, skRm, info).
 package c06
 
 import (
@@ -121,6 +128,8 @@ func run(in string) string {
 		return runHPKE(f)
 	case "E":
 		return runECIES(f)
+	case "V":
+		return runVector(f)
 	}
 	return "badline"
 }
@@ -144,6 +153,12 @@ func check(in, obs string) string {
 	}
 	f := strings.Split(in, "|")
 	if obs == "nokey" || obs == "noprim" || obs == "badline" {
+		return ""
+	}
+	if f[1] == "V" {
+		if m := obsMap(obs); m["pk"] != f[4] {
+			return "RFC 9180 vector: public key of skRm is " + short(m["pk"]) + ", RFC says " + short(f[4])
+		}
 		return ""
 	}
 	var sk, info, pt, tc []byte
@@ -213,6 +228,9 @@ func class(in, obs string) string {
 	}
 	if obs == "nokey" || obs == "noprim" {
 		return f[1] + ":" + f[2] + ":" + obs
+	}
+	if f[1] == "V" {
+		return "V:" + f[2]
 	}
 	var info, pt []byte
 	var muts []string
